@@ -114,22 +114,37 @@ func hsKind(u *universe) *setKind {
 type S = value.String
 
 func run(c *engine.Ctx) {
-	mapParts, setParts := 4, 2
-	depth, setDepth, capMax, maxStates := 5, 5, 9, 60_000
+	setParts := 2
+	setDepth, capMax, maxStates := 5, 9, 60_000
 	initCaps := []int{0, 2, 5, 8}
-	if c.Thorough {
-		mapParts, setParts = 8, 4
-		depth, setDepth, capMax, maxStates = 6, 7, 13, 1_000_000
-		initCaps = []int{0, 1, 2, 3, 5, 8}
+	// depth and number of parts of the HashMapOfValue search per initial capacity
+	mapDepth := func(ic int) (depth, parts int) {
+		if ic == 8 { // quick tier: capacity 8 is what a 5-slot table grows into; its own search is one level shallower
+			return 4, 2
+		}
+		return 5, 8
 	}
+	if c.Thorough {
+		setParts = 4
+		setDepth, capMax, maxStates = 6, 13, 1_000_000
+		initCaps = []int{0, 1, 2, 3, 5, 8}
+		mapDepth = func(ic int) (int, int) {
+			if ic == 0 || ic == 5 { // the capacities every literal and every default-constructed table starts from
+				return 6, 16
+			}
+			return 5, 8
+		}
+	}
+	depth, _ := mapDepth(0)
 	// ---- generic *OfValue tables on colliding mixed-type keys
 	hm, hr, hs := hmKind(uMixed), hrKind(uMixed), hsKind(uMixed)
 	for _, ic := range initCaps {
 		ic := ic
+		d, mapParts := mapDepth(ic)
 		for part := 0; part < mapParts; part++ {
 			part := part
 			c.Case(fmt.Sprintf("bfs/HashMapOfValue/cap%d/part%d", ic, part), func(r *engine.R) {
-				explore(r, newMapSys(hm, ic, capMax, c.Thorough), depth, maxStates, part, mapParts)
+				explore(r, newMapSys(hm, ic, capMax, c.Thorough), d, maxStates, part, mapParts)
 			})
 		}
 		for part := 0; part < setParts; part++ {
@@ -150,11 +165,7 @@ func run(c *engine.Ctx) {
 		c.Case(fmt.Sprintf("bfs/HashRecordOfValue/cap%d", ic), func(r *engine.R) {
 			s := newMapSys(hr, ic, capMax, c.Thorough)
 			s.shadow = newMapSys(hm, ic, capMax, c.Thorough)
-			d := depth
-			if !c.Thorough {
-				d = depth - 1
-			}
-			explore(r, s, d, maxStates, 0, 1)
+			explore(r, s, 4, maxStates, 0, 1)
 		})
 	}
 	// ---- specialised native variants (Go maps underneath) on String keys / String values
@@ -193,11 +204,11 @@ func main() {
 	engine.Main(&engine.Spec{
 		Prop:  "C17",
 		Level: "model_checking",
-		Rule: "Go API: breadth-first search over operation histories of real HashMapOfValue / HashRecordOfValue / HashSetOfValue objects (one search per initial capacity) and of the " +
+		Rule: "Go API: breadth-first search over operation histories of real HashMapOfValue / HashRecordOfValue / HashSetOfValue objects (one search per initial capacity 0, 2, 5, 8; thorough 0, 1, 2, 3, 5, 8) and of the " +
 			"specialised NativeHashMap / NativeKeyHashMap / NativeHashRecord / NativeKeyHashRecord / NativeHashSet variants; successor = replay of the shortest history on a fresh object + one operation " +
 			"out of {set(k,v) v in 1..2, delete(k), set_capacity(length|length+1), grow(1), copy_into / copy_table from 3 fixed maps, self=self+F, self=clone; sets: add, remove, union, intersection}; " +
 			"keys: 3 small Ints with equal hash residues modulo every capacity 1..15, a 4th such Int and a big Int only in the fixed argument maps, an Int whose home slot is adjacent, a String (reference keys are rebuilt on every use: equal under ==, distinct objects); " +
-			"states merged on the full slot array + Elements + OccupiedSlots + capacity; depth 5 (thorough: maps and records 6, sets 7), each search split into 4 (sets 2; thorough 8 and 4) cases by the first operation; after every transition: counters vs slot array, every lookup/contains variant for every key, " +
+			"states merged on the full slot array + Elements + OccupiedSlots + capacity; depth 5 (thorough: 6 for sets and for maps of initial capacity 0 and 5), each search split into 8 (sets 2; thorough up to 16 and 4) cases by the first operation; after every transition: counters vs slot array, every lookup/contains variant for every key, " +
 			"4 iteration APIs, == / =~ with 3 equal twins and 4 different twins in both directions, + / | / & with every fixed argument in both operand orders (also against the other implementations), clone, copy, " +
 			"and non-mutation by observers, all against a Go map. Elk level: every sequence of <= 3 (thorough 4) operations ([]=, + map literal, + record literal; sets: <<, push, append, remove, |, +, & as observer) " +
 			"on 2 initial literals of 7 collection flavours (Int keys -> generic tables, String keys -> native variants), observed after every step with length, [], contains_key, contains, contains_value, iteration count+fingerprint, ==. " +
@@ -208,7 +219,7 @@ func main() {
 			"iteration order is unspecified: only the multiset of yielded entries is compared",
 			"method bodies compiled one at a time (MethodCheckConcurrencyLimit=1)",
 		},
-		CaseTimeout: 240 * time.Second,
+		CaseTimeout: 900 * time.Second, // the largest search needs ~15 CPU-seconds; the machine may be heavily shared
 		Setup: func(c *engine.Ctx) {
 			elkrun.Init()
 			debug.SetGCPercent(400) // many short-lived objects per transition; 16 workers share the machine
